@@ -191,6 +191,16 @@ def run(tier, seed):
                     if len(ri) > 2:
                         r3 = np.delete(ri, rng.randint(1, len(ri) - 2), axis=0)
                         record("chord.seg", call(lambda: (me.chord.overseg(r3, e3), me.chord.underseg(r3, e3), me.chord.seg(r3, e3))), (r3, e3), {"family": "reference with a gap"})
+    # the melody measures called directly on EMPTY voicing / cent arrays (valid, warned about, scored 0): branch coverage of the
+    # library under the twenty checks showed these early returns unexercised
+    _e = np.array([])
+    _v3 = np.array([1.0, 0.0, 1.0])
+    record("melody.measures", call(lambda: (me.melody.voicing_recall(_e, _e), me.melody.voicing_false_alarm(_e, _e),
+                                            me.melody.raw_pitch_accuracy(_e, _e, _e, _e), me.melody.raw_chroma_accuracy(_e, _e, _e, _e),
+                                            me.melody.overall_accuracy(_e, _e, _e, _e))), (_e, _e, _e, _e), {"family": "empty arrays"})
+    record("melody.measures", call(lambda: (me.melody.voicing_recall(_v3, _e), me.melody.voicing_false_alarm(_v3, _e),
+                                            me.melody.voicing_false_alarm(_e, _v3)) +
+                                   tuple(me.melody.voicing_measures(_e, _e))), (_v3, _e), {"family": "one side empty"})
     # fixed witnesses of the input classes of the recorded findings (so that every run exercises them, whatever the seed)
     w_cem = (np.array([6.5, 6.5, 6.5, 7.5, 8.5]), np.array([6.5, 8.5]))             # Cemgil 1.14 / 1.2 with a triplicated beat
     w_ig = (np.array([6.0, 6.5, 7.0, 7.0]), np.array([6.0, 6.0, 9.0]))               # information gain NaN with duplicated beats
